@@ -410,6 +410,12 @@ class Impl:
         if c == 4:
             pt, rs = op[1], SS(op[2])
             return self._b(e.remove_named_policies("p", rs) if pt == 0 else e.remove_named_grouping_policies(PT[pt][1], rs))
+        if c == 9:
+            # "remove everything", written the obvious way: the batch call is handed the very list the getter returned
+            pt = op[1]
+            if pt == 0:
+                return self._b(e.remove_named_policies("p", e.get_named_policy("p")))
+            return self._b(e.remove_named_grouping_policies(PT[pt][1], e.get_named_grouping_policy(PT[pt][1])))
         if c == 5:
             pt, i, vs = op[1], op[2], S(op[3])
             if pt == 0:
@@ -544,6 +550,25 @@ def canon_model_obs(op, obs):
     if op[0] in SORTED_RESULT and res and res[0] == 0 and isinstance(res[1], list):
         res = [0, sorted(res[1])]
     return [res] + obs[1:]
+
+
+def concretise(rows, load_first, ops, obs):
+    """ops as the MODEL and the specs see them: op 9 (a batch removal handed the getter's own list) becomes the batch
+    removal of the rules that were stored just before it, as observed on the implementation"""
+    if not any(o[0] == 9 for o in ops):
+        return ops
+    out = []
+    for i, op in enumerate(ops):
+        if op[0] == 9:
+            pt = op[1]
+            if i > 0 and i - 1 < len(obs):
+                cur = [list(r) for r in obs[i - 1][3 + pt]]
+            else:
+                cur = [list(r) for p_, r in rows if p_ == pt] if load_first else []
+            out.append((4, pt, cur))
+        else:
+            out.append(op)
+    return out
 
 
 def run_impl(kind, rows, load_first, ops, **kw):
@@ -693,7 +718,7 @@ def shrink(ops, fails, max_rounds=400):
 
 def pretty_op(op):
     names = {1: "add", 2: "add_many", 3: "remove", 4: "remove_many", 5: "remove_filtered", 6: "update_policy",
-             7: "update_policies", 8: "update_filtered_policies", 10: "delete_user", 11: "delete_role",
+             7: "update_policies", 8: "update_filtered_policies", 9: "remove_policies(<the list get_policy() returned>)", 10: "delete_user", 11: "delete_role",
              12: "delete_permission", 13: "add_permission_for_user", 14: "delete_permission_for_user",
              15: "delete_permissions_for_user", 16: "add_role_for_user", 17: "delete_role_for_user",
              18: "delete_roles_for_user", 19: "add_role_for_user_in_domain", 20: "delete_roles_for_user_in_domain",
@@ -738,7 +763,7 @@ def pretty_op(op):
 DEFAULT_WEIGHTS = dict(p_add=6, p_add_many=4, p_remove=4, p_remove_many=3, p_remove_filtered=2, p_update=3,
                        p_update_many=2, p_update_filtered=0, g_add=6, g_add_many=4, g_remove=4, g_remove_many=3,
                        g_remove_filtered=2, rbac=5, clear=0.5, load=1, save=1, build=0.5, flags=0, query=6, probe=1.5,
-                       short_g=0, long_g=0)
+                       short_g=0, long_g=0, alias_remove=0)
 
 
 class Gen:
@@ -898,6 +923,11 @@ class Gen:
                 for r in b:
                     self.present.remove(r)
             return [(4, 0, b)]
+        if n == "alias_remove":
+            pt = 0 if (not self.kind.g or rng.random() < 0.5) else self.gpt()
+            if pt == 0:
+                self.present = []
+            return [(9, pt)]
         if n == "p_remove_filtered":
             i, vs = self.filt(0)
             self.present = []            # unknown afterwards
@@ -1004,7 +1034,17 @@ def run_cases(chk, kind, cases, spec_check=None, label="", impl_kwargs=None, com
     spec_check(kind, rows, load_first, ops, impl_obs, impl) -> list of (step, message[, finding_id])."""
     impl_kwargs = impl_kwargs or {}
     impl_obs = []
-    specs = [c[3] if len(c) > 3 else spec_check for c in cases]
+    def _conc(sc):
+        if sc is None:
+            return None
+
+        def wrapped(kind, rows, lf, ops, obs, impl):
+            return sc(kind, rows, lf, concretise(rows, lf, ops, obs), obs, impl)
+        for a in ("case_extra",):
+            if hasattr(sc, a):
+                setattr(wrapped, a, getattr(sc, a))
+        return wrapped
+    specs = [_conc(c[3] if len(c) > 3 else spec_check) for c in cases]
     cases = [c[:3] for c in cases]
     for rows, lf, ops in cases:
         impl, obs = run_impl(kind, rows, lf, ops, **impl_kwargs)
@@ -1012,7 +1052,8 @@ def run_cases(chk, kind, cases, spec_check=None, label="", impl_kwargs=None, com
     model_obs = [None] * len(cases)
     if compare_model and chk.oracle is not None:
         # batch per load_first/rows (each request carries its own rows)
-        reqs = [(1, [kind.wire(), [[pt, r] for pt, r in rows], lf, [list(op) for op in ops]]) for rows, lf, ops in cases]
+        reqs = [(1, [kind.wire(), [[pt, r] for pt, r in rows], lf, [list(op) for op in concretise(rows, lf, ops, impl_obs[n][1])]])
+                for n, (rows, lf, ops) in enumerate(cases)]
         reps = chk.oracle.query(reqs)
         for n, ((rows, lf, ops), rep) in enumerate(zip(cases, reps)):
             if isinstance(rep, list) and rep != [998] and not (rep and rep[0] == "ORACLE-ERROR"):
@@ -1089,8 +1130,9 @@ def replay_case(chk, spec_check, impl_kwargs=None):
     ops = [tuple(o) for o in c["ops"]]
     lf = c.get("load_first", True)
     impl, obs = run_impl(kind, rows, lf, ops, **(impl_kwargs or {}))
-    viol = spec_check(kind, rows, lf, ops, obs, impl) if spec_check else []
-    mo = run_model(chk.oracle, kind, rows, lf, [ops])[0] if chk.oracle else None
+    cops = concretise(rows, lf, ops, obs)
+    viol = spec_check(kind, rows, lf, cops, obs, impl) if spec_check else []
+    mo = run_model(chk.oracle, kind, rows, lf, [cops])[0] if chk.oracle else None
     d = first_diff(obs, mo) if mo is not None else None
     print("replay history:", [pretty_op(o) for o in ops])
     print("  spec violations on the implementation:", viol[:3])
